@@ -655,9 +655,24 @@ def simple_interfaces(res, unit):
         loc: object
         scale: object
 
+    @dataclasses.dataclass
+    class DCP:
+        """a state class like liesel's own kernel states: __post_init__ pre-processes a
+        constructor argument and there is a field that is not an __init__ argument"""
+
+        x: object
+        loc: object
+        scale: object
+        cache: object = dataclasses.field(init=False)
+
+        def __post_init__(self):
+            self.x = self.x - 1.0
+            self.cache = jnp.asarray(0.0, dtype=jnp.float32)
+
     fields = ("x", "loc", "scale")
-    lattice = {"x": [0.25, -1.5], "loc": [0.5, 2.0], "scale": [1.5, 0.75]}
-    base_vals = {"x": [1.0, -0.5, 2.0], "loc": 0.0, "scale": 2.0}
+    kfields = {"dict": fields, "nt": fields, "dc": fields, "dcp": fields + ("cache",)}
+    lattice = {"x": [0.25, -1.5], "loc": [0.5, 2.0], "scale": [1.5, 0.75], "cache": [3.0, -2.0]}
+    base_all = {"x": [1.0, -0.5, 2.0], "loc": 0.0, "scale": 2.0, "cache": 7.5}
 
     def lp_dict(s):
         return jnp.sum(-0.5 * ((s["x"] - s["loc"]) / s["scale"]) ** 2 - jnp.log(s["scale"]) - 0.5 * jnp.log(2 * jnp.pi))
@@ -667,6 +682,13 @@ def simple_interfaces(res, unit):
 
     def mk(kind, vals):
         arr = {f: jnp.asarray(v, dtype=jnp.float32) for f, v in vals.items()}
+        if kind == "dcp":
+            s = DCP(arr["x"] + 1.0, arr["loc"], arr["scale"])
+            s.cache = arr["cache"]
+            for f in kfields[kind]:
+                if not np.array_equal(np.asarray(getattr(s, f)), np.asarray(arr[f])):
+                    raise RuntimeError("harness: DCP construction")
+            return s
         return arr if kind == "dict" else (NT(**arr) if kind == "nt" else DC(**arr))
 
     def get(kind, s, f):
@@ -675,11 +697,14 @@ def simple_interfaces(res, unit):
     def fail(check, sig, case, msg):
         res.violation(check, sig, case, msg)
 
-    kinds = {"dict": (gs.DictInterface, lp_dict), "nt": (gs.NamedTupleInterface, lp_attr), "dc": (gs.DataclassInterface, lp_attr)}
-    subsets = [c for r in range(0, 4) for c in itertools.combinations(fields, r)]
+    kinds = {"dict": (gs.DictInterface, lp_dict), "nt": (gs.NamedTupleInterface, lp_attr), "dc": (gs.DataclassInterface, lp_attr),
+             "dcp": (gs.DataclassInterface, lp_attr)}
     for kind, (cls, lpf) in kinds.items():
+        flds = kfields[kind]
+        base_vals = {f: base_all[f] for f in flds}
+        subsets = [c for r in range(0, len(flds) + 1) for c in itertools.combinations(flds, r)]
         itf = cls(lpf)
-        modes = ("eager", "jit", "vmap") if kind != "dc" else ("eager",)
+        modes = ("eager", "jit", "vmap") if kind in ("dict", "nt") else ("eager",)
         jitted = jax.jit(itf.update_state)
         table = {}
         for mode in modes:
@@ -694,11 +719,15 @@ def simple_interfaces(res, unit):
                             for step, (sub, i) in enumerate(((sub1, i1), (sub2, i2))):
                                 p = {f: jnp.asarray(lattice[f][i] if f != "x" else [lattice[f][i]] * 3, dtype=jnp.float32) for f in sub}
                                 p_ids = {f: id(v) for f, v in p.items()}
-                                snap = {f: (id(get(kind, cur, f)), np.array(get(kind, cur, f))) for f in fields}
+                                snap = {f: (id(get(kind, cur, f)), np.array(get(kind, cur, f))) for f in flds}
                                 cur_id = id(cur)
                                 case = {"interface": kind, "mode": mode, "calls": [[list(sub1), i1], [list(sub2), i2]], "step": step}
                                 if mode == "eager":
-                                    new = itf.update_state(p, cur)
+                                    try:
+                                        new = _guard(itf.update_state, p, cur)
+                                    except LieselRaised as e:
+                                        fail("simple", f"raises@{kind}/{mode}", case, f"update_state({list(sub)}) raised {e}")
+                                        break
                                 elif mode == "jit":
                                     new = jitted(p, cur)
                                 else:
@@ -716,14 +745,14 @@ def simple_interfaces(res, unit):
                                 got = itf.extract_position(list(sub), new)
                                 if list(got) != list(sub):
                                     fail("simple", f"extract-keys@{kind}", case, f"extract_position keys {list(got)} != {list(sub)}")
-                                for f in fields:
+                                for f in flds:
                                     want = np.broadcast_to(np.asarray(vals[f], dtype=np.float32), np.shape(get(kind, new, f)))
                                     if not np.array_equal(np.asarray(get(kind, new, f)), want):
                                         fail("simple", f"{'put-get' if f in sub else 'frame'}@{kind}/{mode}", case, f"field {f} = {get(kind, new, f)} expected {want}")
                                 # non-mutation of the input state and of the position
                                 if id(cur) != cur_id:
                                     raise RuntimeError("harness: input state object replaced")
-                                for f in fields:
+                                for f in flds:
                                     v = get(kind, cur, f)
                                     if id(v) != snap[f][0] or not np.array_equal(np.asarray(v), snap[f][1]):
                                         fail("simple", f"input-mutated@{kind}/{mode}", case, f"field {f} of the INPUT state changed to {v}")
@@ -740,8 +769,8 @@ def simple_interfaces(res, unit):
                                 if not abs(lp - want) <= 2e-5 * (abs(want) + 1):
                                     fail("simple", f"log_prob@{kind}", case, f"log_prob {lp} != {want}")
                                 # history independence (same instance, same arguments)
-                                key = (mode, tuple(sorted((f, np.asarray(v).tobytes()) for f, v in p.items())), tuple(np.asarray(get(kind, cur, f)).tobytes() for f in fields))
-                                dg = tuple(np.asarray(get(kind, new, f)).tobytes() for f in fields)
+                                key = (mode, tuple(sorted((f, np.asarray(v).tobytes()) for f, v in p.items())), tuple(np.asarray(get(kind, cur, f)).tobytes() for f in flds))
+                                dg = tuple(np.asarray(get(kind, new, f)).tobytes() for f in flds)
                                 if table.setdefault(key, dg) != dg:
                                     fail("simple", f"history@{kind}/{mode}", case, "same arguments, different result")
                                 res.outcome("simple", kind, mode, len(sub), step)
@@ -749,14 +778,14 @@ def simple_interfaces(res, unit):
                             res.executions += 1
         res.states += len(table)
         # unknown key must not be silently accepted by the dataclass interface
-        if kind == "dc":
+        if kind in ("dc", "dcp"):
             try:
                 itf.update_state({"nope": 1.0}, mk(kind, base_vals))
                 fail("simple", "unknown-key@dc", {}, "DataclassInterface accepted a key that is not a field")
             except RuntimeError:
                 pass
     res.note(["simple", res.transitions, res.executions])
-    res.sample({"simple_interfaces": list(kinds), "key_subsets": len(subsets), "chains": res.executions})
+    res.sample({"simple_interfaces": list(kinds), "key_subsets": {k: 2 ** len(v) for k, v in kfields.items()}, "chains": res.executions})
 
 
 _CACHE_DIR = None
